@@ -313,6 +313,49 @@ fn main() {
         t
     });
 
+    // E7: every single-byte substitution (all 256 byte values, every position) in digit strings of length
+    // 1..=24, bare, signed, with a point at every position, and with an exponent: the full byte alphabet at
+    // mutation radius 1 (reaches word-at-a-time digit tests, non-ASCII bytes, control characters)
+    let mut e7: Vec<String> = vec![];
+    let digits = "123456789012345678901234";
+    for l in 1..=24usize {
+        let d = &digits[..l];
+        e7.push(d.to_string());
+        e7.push(format!("-{}", d));
+        e7.push(format!("{}e5", d));
+        for dot in 0..=l {
+            if l <= 10 || dot == 0 || dot == l || dot == 8 || dot == l / 2 {
+                e7.push(format!("{}.{}", &d[..dot], &d[dot..]));
+            }
+        }
+    }
+    run.bound("E7_base_numerals", e7.len());
+    run.par("E7 all single-byte substitutions", e7.len(), |bi| {
+        let mut t = Tally::default();
+        let base = e7[bi].as_bytes().to_vec();
+        for pos in 0..base.len() {
+            for b in 0..=255u8 {
+                let mut m = base.clone();
+                m[pos] = b;
+                t.states += 1;
+                if expected(&m, 10).is_some() {
+                    t.nontrivial += 1;
+                }
+                t.transitions += 1;
+                if let Some(v) = check("parse_bytes(10)", &m, 10) {
+                    run.report(v);
+                }
+                if std::str::from_utf8(&m).is_ok() {
+                    t.transitions += 1;
+                    if let Some(v) = check("from_str", &m, 10) {
+                        run.report(v);
+                    }
+                }
+            }
+        }
+        t
+    });
+
     let radices = [0u32, 1, 2, 8, 9, 11, 16, 36, 37, u32::MAX];
     run.bound("E5_radices", json!(radices));
     run.par("E5 radix other than 10", gp.len(), |i| {
